@@ -149,6 +149,7 @@ def run_check(prop: str, tier: str, fn, level="other", technique="", explanation
               thorough_fn=None) -> int:
     t0 = time.time()
     seed = int(os.environ.get("VERIF_SEED", "0") or 0)
+    ctx = None
     try:
         ctx = Ctx(prop, tier)
         fn(ctx)
@@ -158,8 +159,14 @@ def run_check(prop: str, tier: str, fn, level="other", technique="", explanation
         if tier == "thorough" and thorough_fn is not None:
             thorough_fn(ctx)
     except AnalysisError as e:
-        print(f"ANALYSIS-ERROR property={prop} {e}")
-        return 2
+        known_now = {k["key"] for k in load_known().get("known", []) if k.get("property") == prop}
+        if ctx is not None and any(f.key not in known_now for f in ctx.findings) and tier != "thorough":
+            # a later rule could not be evaluated, but an earlier one already found a violation: that report is the answer
+            print(f"NOTE property={prop} analysis stopped early ({e}); reporting the violation(s) found before that")
+            ctx.analysed["analysis_stopped_early"] = str(e)
+        else:
+            print(f"ANALYSIS-ERROR property={prop} {e}")
+            return 2
     except Exception as e:  # never let a traceback look like a violation
         traceback.print_exc(file=sys.stderr)
         print(f"ANALYSIS-ERROR property={prop} internal error: {type(e).__name__}: {e}")
